@@ -42,6 +42,7 @@ def configure(cfg):
     schema('1.0')
     schema('1.1')
     _facet_types()
+    _digit_types()
 
 
 # ---------------------------------------------------------------- Engine B: value ranges (all integers)
@@ -457,7 +458,69 @@ def h_facet_str(s: str, b: int) -> bool:
     return ok == _FACET_REF[CFG["facet"]](s, b)
 
 
+# ---------------------------------------------------------------- digits facets (finite-choice boundary literals)
+
+_DIGITS_XSD = """<xs:schema xmlns:xs="http://www.w3.org/2001/XMLSchema">
+ <xs:simpleType name="tdI"><xs:restriction base="xs:integer"><xs:totalDigits value="3"/></xs:restriction></xs:simpleType>
+ <xs:simpleType name="tdD"><xs:restriction base="xs:decimal"><xs:totalDigits value="3"/></xs:restriction></xs:simpleType>
+ <xs:simpleType name="fdD"><xs:restriction base="xs:decimal"><xs:fractionDigits value="3"/></xs:restriction></xs:simpleType>
+</xs:schema>"""
+DIGIT_LITERALS = {
+    "tdI": ['0', '9', '10', '99', '100', '999', '1000', '9999', '10000', '-9', '-10', '-99', '-100', '-999', '-1000', '-9999', '+100', '0099'],
+    "tdD": ['0', '0.0', '9.9', '10', '1.10', '0.01', '0.001', '100.00', '99.9', '99.99', '-0.5', '-12.3', '-12.34', '-123', '-1234', '.5', '5.', '1000'],
+    "fdD": ['0', '1.0', '1.10', '1.11', '0.001', '0.0010', '0.0001', '-1.5', '-1.25', '-0.125', '100', '1.', '.1234'],
+}
+_DT_TYPES = {}
+
+
+def _digit_types():
+    if not _DT_TYPES:
+        sch = xmlschema.XMLSchema10(_DIGITS_XSD)
+        sch.maps.cache.enabled = False
+        for n in DIGIT_LITERALS:
+            _DT_TYPES[n] = sch.types[n]
+    return _DT_TYPES
+
+
+def _min_total_fraction(text):
+    """XSD Part 2 4.3.11/4.3.12: smallest totalDigits / fractionDigits admitting the decimal value of `text`"""
+    from decimal import Decimal
+    d = Decimal(text)
+    if d == 0:
+        return 1, 0
+    sign, digits, exp = d.normalize().as_tuple()
+    total = max(len(digits) + max(exp, 0), -exp if exp < 0 else 0)
+    frac = -exp if exp < 0 else 0
+    return total, frac
+
+
+def pre_digits(fn, li, b):
+    return 0 <= li < len(DIGIT_LITERALS[CFG["facet"]]) and 1 <= b <= 5
+
+
+def h_digits(li: int, b: int) -> bool:
+    from engine.sym import pick
+    name = CFG["facet"]
+    t = _digit_types()[name]
+    text = DIGIT_LITERALS[name][pick(li, len(DIGIT_LITERALS[name]))]
+    bound = pick(b - 1, 5) + 1
+    f = [x for x in t.validators if hasattr(x, 'value')][0]
+    old = f.value
+    f.value = bound
+    try:
+        ok = t.is_valid(text)
+    finally:
+        f.value = old
+    total, frac = _min_total_fraction(text)
+    want = (total <= bound) if name.startswith('td') else (frac <= bound)
+    return ok == want
+
+
 def explain(fn, args):
+    if fn == "h_digits":
+        name = CFG["facet"]
+        return "facet type %s literal %r bound %d (min totalDigits, fractionDigits) = %r" % (
+            name, DIGIT_LITERALS[name][args["li"]], args["b"], _min_total_fraction(DIGIT_LITERALS[name][args["li"]]))
     if fn == "h_normalize":
         t = btype('1.0', _WS_TYPES[CFG["mode"]])
         return "whiteSpace=%s text %r -> %r, XSD says %r" % (CFG["mode"], args["s"], t.normalize(args["s"]), X.normalize(CFG["mode"], args["s"]))
@@ -517,4 +580,8 @@ def obligations(tier, seed):
                     "config": {"facet": f}, "timeout": 100, "twin_timeout": 20, "bound": "strings <= 2 characters over 'ab', facet value 0..3 (real facet object, bound overwritten)"})
         out.append({"name": "facet-smt/%s" % f, "engine": "smt", "fn": "smt_facet", "config": {"facet": f, "maxlen": 8}, "timeout": 60,
                     "bound": "all strings of length <= 8 and all facet values >= 0"})
+    for f in ("tdI", "tdD", "fdD"):
+        out.append({"name": "digits/%s" % f, "fn": "h_digits", "pre": "pre_digits", "args": [["li", "int"], ["b", "int"]],
+                    "config": {"facet": f}, "timeout": 200, "twin_timeout": 20,
+                    "bound": "boundary literals %r x facet value 1..5 (finite choice, facet value overwritten on the live facet)" % (DIGIT_LITERALS[f],)})
     return out
